@@ -3,8 +3,8 @@
 // Model-based: histories of {register(+approve) chain, register only, quit(+approve), quit request
 // only, BlackChain, WhiteChain (by the operator / by someone else), import (a voting round)} over
 // six chain ids, all through the real contracts. The model tracks registered / blacklisted from
-// the operations; before each import it is cross-checked against the real registry and blacklist
-// getters (a disagreement is a registry question, C33, and the import is then not judged).
+// the operations; before each import the registry part is cross-checked against the real registry
+// getter (a disagreement is a registry question, C33, and the import is then not judged).
 package c21
 
 import (
@@ -213,9 +213,11 @@ func (h *hist) opImport(src, dst uint64) {
 	r := h.r
 	// cross-check the model against the real getters; a disagreement is not this property's business
 	for _, c := range []uint64{src, dst} {
-		if h.w.Registered(c) != h.reg[c] || h.w.Blacked(c) != h.black[c] {
+		// (only the registry is cross-checked: the effect of BlackChain / WhiteChain is this property's
+		// own subject and is judged through the imports)
+		if h.w.Registered(c) != h.reg[c] {
 			r.Count("model_vs_registry_disagreement", 1)
-			h.logf("import %d->%d skipped: model reg=%v black=%v, chain says reg=%v black=%v", src, dst, h.reg[c], h.black[c], h.w.Registered(c), h.w.Blacked(c))
+			h.logf("import %d->%d skipped: model registered=%v, chain says %v", src, dst, h.reg[c], h.w.Registered(c))
 			return
 		}
 	}
